@@ -544,7 +544,7 @@ def sweep_seed(job):
     return out
 
 
-def _one_instance(ctx: ProcCtx, p, op, opname, args, props, live, rec, env, bounds, rng, tier):
+def _one_instance(ctx: ProcCtx, p, op, opname, args, props, live, rec, env, bounds, rng, tier, force_ub=False):
     p_ir = p._loopir_proc
     if "C07" in props:
         # procedures alive before the call that the call can reach: the source, the procedures passed as
@@ -719,7 +719,7 @@ def _one_instance(ctx: ProcCtx, p, op, opname, args, props, live, rec, env, boun
                 else:
                     rec.setdefault("c04_unreproduced", []).append({"kind": o.kind, "where": o.where, "p_ok": p_ok, "q_bad": q_bad})
             # the same obligations over unbounded sizes with summarised loops (all of thorough, a sample of quick)
-            if not found and (tier == "thorough" or rng.random() < 0.1):
+            if not found and (tier == "thorough" or force_ub or rng.random() < 0.1):
                 try:
                     cu = getattr(ctx, "_ub_ctx", None)
                     if cu is None:
@@ -818,7 +818,7 @@ def expand_composite(p, q, trace, crec, job, props, live, env, bounds, rng, tier
                 if not ctx.assumptions_sat():
                     raise Unsupported("assumptions unsatisfiable")
                 ctx._pop()
-            _one_instance(ctx, cur, op, st["op"], args, props, [cur], rec, env, bounds, rng, tier)
+            _one_instance(ctx, cur, op, st["op"], args, props, [cur], rec, env, bounds, rng, tier, force_ub=bool(crec.get("c04_unbounded") == "violated"))
         except (Unsupported, TooBig, L.IllFormed) as ex:
             rec["status"] = "skipped"
             rec["why"] = f"{type(ex).__name__}: {ex}"
@@ -1002,6 +1002,8 @@ def c06_check(p, q, rec, second_ops, env, rng, n_direct=8):
                 continue
             r1, e1, _ = apply_op(ops[opname], q, [c] + list(extra))
             r2, e2, _ = apply_op(ops[opname], q, [fc] + list(extra))
+            if isinstance(e1, OpTimeout) or isinstance(e2, OpTimeout):
+                continue  # Exo's own analysis was interrupted by the watchdog: nothing to compare
             n_cmp += 1
             s1 = str(r1) if r1 is not None else "raise"
             s2 = str(r2) if r2 is not None else "raise"
